@@ -1,5 +1,5 @@
 """C13 -- references lent by the mock stay valid, distinct and unmodified while borrowed."""
-import collections, json, random, time
+import collections, json, random, re, time
 from .. import common as C
 from .. import layer_b as B
 from ..runner import canon
@@ -166,7 +166,7 @@ def concurrent_lending(rng, tier, prop):
     impl = C.run_harness(binary, [harness_line(c, i) for i, c in enumerate(cases)], timeout=900)
     model = C.coq_eval_cases(PRELUDE, [coq_case(c) for c in cases], show="lines_of_chcases", shard=40)
     def results(o):
-        return [l for l in o if not (l.startswith("t") and " TryInsert " in l)]
+        return [l for l in o if not re.match(r"t\d+ \w+ ", l)]
     bad = [i for i in range(len(cases)) if project(impl[i]) != project(model[i])]
     res_bad = [i for i in bad if results(impl[i]) != results(model[i])]
     if not bad:
@@ -242,7 +242,8 @@ def run(tier, seed):
     big = C.run_harness(binary, [f"case big BIG {nbig} 64"], timeout=900, jobs=1)[0]
     big_ok = big == [f"big sum={nbig * (nbig - 1) // 2} during={nbig} end=0"]
     def results(o):
-        return [l for l in o if not (l.startswith("t") and " TryInsert " in l)]
+        # everything but the trace of the scheduler's announced steps (`t<k> <Op> <location>`)
+        return [l for l in o if not re.match(r"t\d+ \w+ ", l)]
     res_bad = [i for i in bad if results(impl[i]) != results(model[i])]
     stress = None
     if tier == "thorough" or (bad and not res_bad):
